@@ -86,6 +86,65 @@ def normCoeff (zeroLast : Bool) (oldT oldC : List Rat) : List Rat :=
 def fillV (zeroLast : Bool) (tol : Rat) (oldT oldC full : List Rat) : Except Err (List Rat) :=
   fill tol oldT (normCoeff zeroLast oldT oldC) full
 
+/-! ## `_fill_coeff`, step branch, with the advance step of the working tree (fixes/C14-7.patch)
+
+`w = false`: the code as found, `if old_tlist[old_ind + 1] <= t + tol: old_ind += 1` (at most one slot per merged point,
+`IndexError` when the index is at the last grid point).  `w = true`: the repaired loop
+`while old_ind + 1 < len(old_tlist) and old_tlist[old_ind + 1] <= t + tol: old_ind += 1` — the index catches up over
+every slot that ends before `t + tol`; slots shorter than `tol` have no point of their own in the merged grid. -/
+
+/-- the `while` loop; `fuel` bounds the number of iterations (the index moves at most `len(old_tlist)` times) -/
+def catchUp (tol : Rat) (oldT : List Rat) (t : Rat) : Nat → Nat → Nat
+  | 0, i => i
+  | fuel + 1, i =>
+    match oldT[i + 1]? with
+    | some nxt => if nxt ≤ t + tol then catchUp tol oldT t fuel (i + 1) else i
+    | none => i
+
+/-- the running index after the advance step at the merged point `t`; `none`: `IndexError` -/
+def nextInd (w : Bool) (tol : Rat) (oldT : List Rat) (t : Rat) (oldInd : Nat) : Option Nat :=
+  if w then some (catchUp tol oldT t oldT.length oldInd)
+  else
+    match oldT[oldInd + 1]? with
+    | none => none
+    | some nxt => some (if nxt ≤ t + tol then oldInd + 1 else oldInd)
+
+/-- `fillLoop` with the advance step of the variant `w` (`fillLoopW false = fillLoop`, `GridCatchUp.fillLoopW_false`) -/
+def fillLoopW (w : Bool) (tol : Rat) (oldT oldC : List Rat) (first last : Rat) : Nat → List Rat → Except Err (List Rat)
+  | _, [] => .ok []
+  | oldInd, t :: ts =>
+    if first - t > tol then
+      match fillLoopW w tol oldT oldC first last oldInd ts with
+      | .error e => .error e
+      | .ok r => .ok (0 :: r)
+    else if t - last > tol then
+      match fillLoopW w tol oldT oldC first last oldInd ts with
+      | .error e => .error e
+      | .ok r => .ok (0 :: r)
+    else
+      match nextInd w tol oldT t oldInd with
+      | none => .error .index
+      | some ind' =>
+        match oldC[ind']? with
+        | none => .error .index
+        | some c =>
+          match fillLoopW w tol oldT oldC first last ind' ts with
+          | .error e => .error e
+          | .ok r => .ok (c :: r)
+
+/-- `_fill_coeff` (step branch) with the advance step of the variant `w` -/
+def fillW (w : Bool) (tol : Rat) (oldT oldC full : List Rat) : Except Err (List Rat) :=
+  match full with
+  | [] => .ok []
+  | _ =>
+    match oldT.head?, oldT.getLast? with
+    | some first, some last => fillLoopW w tol oldT (padCoeff oldT oldC) first last 0 full
+    | _, _ => .error .index
+
+/-- both variants of the working tree: padding (`zeroLast`, fixes/C14-2) and advance step (`w`, fixes/C14-7) -/
+def fillVW (zeroLast w : Bool) (tol : Rat) (oldT oldC full : List Rat) : Except Err (List Rat) :=
+  fillW w tol oldT (normCoeff zeroLast oldT oldC) full
+
 /-! ## `get_full_coeffs` (step_func) -/
 
 inductive Chan
@@ -139,6 +198,22 @@ def Chan.norm (zeroLast : Bool) : Chan → Chan
 
 def fullCoeffsV (zeroLast : Bool) (tol : Rat) (chans : List Chan) : Except Err (List Rat × List (List Rat)) :=
   fullCoeffs tol (chans.map (Chan.norm zeroLast))
+
+/-- `get_full_coeffs()` with the advance step of the variant `w` -/
+def fullCoeffsW (w : Bool) (tol : Rat) (chans : List Chan) : Except Err (List Rat × List (List Rat)) :=
+  if !valid chans then .error .shape else
+  match procTlist tol chans with
+  | none => .error .type
+  | some T =>
+    match mapMExcept (fun
+        | .absent => .ok (T.map fun _ => (0 : Rat))
+        | .const b _ => .ok (T.map fun _ => if b then (1 : Rat) else 0)
+        | .arr tl cs => fillW w tol tl cs T) chans with
+    | .error e => .error e
+    | .ok rows => .ok (T, rows)
+
+def fullCoeffsVW (zeroLast w : Bool) (tol : Rat) (chans : List Chan) : Except Err (List Rat × List (List Rat)) :=
+  fullCoeffsW w tol (chans.map (Chan.norm zeroLast))
 
 /-- `run_analytically`: slice `n` has `dt = T[n+1] - T[n]` and the coefficient column `n` -/
 def slices : List Rat → List (List Rat) → List (Rat × List Rat)
